@@ -8,7 +8,7 @@ their bytes), sets are compared through an exact canonical form of their element
 __dict__ through their common attributes (attributes missing on one side are returned separately).
 Nothing from the repository is used to decide equality.
 """
-import numbers
+import numbers, types
 import numpy as np
 
 MAXDIFF = 12
@@ -20,6 +20,10 @@ def _isnum(x):
 
 def _isseq(x):
     return isinstance(x, (list, tuple, np.ndarray)) or type(x).__module__.startswith('h5py')
+
+
+def _isfunc(x):
+    return isinstance(x, (types.FunctionType, types.MethodType, types.BuiltinFunctionType, type))
 
 
 def _isnamed(x):
@@ -46,7 +50,7 @@ def freeze(x, depth=0):
     if isinstance(x, dict):
         return ('dict', frozenset((freeze(k, depth + 1), freeze(v, depth + 1)) for k, v in x.items()))
     if hasattr(x, '__dict__'):
-        return (type(x).__name__, frozenset((k, freeze(v, depth + 1)) for k, v in vars(x).items() if not callable(v)))
+        return (type(x).__name__, frozenset((k, freeze(v, depth + 1)) for k, v in vars(x).items() if not _isfunc(v)))
     return ('repr', repr(x))
 
 
@@ -128,7 +132,7 @@ def diff(a, b, path='', out=None, missing=None, skip=(), _seen=None):
             if fk in kb:
                 diff(a[ka[fk]], b[kb[fk]], '%s{%s}' % (path, str(ka[fk])[:40]), out, missing, skip, _seen)
         return out, missing
-    if hasattr(a, '__dict__') and hasattr(b, '__dict__') and not callable(a):
+    if hasattr(a, '__dict__') and hasattr(b, '__dict__') and not _isfunc(a):
         if type(a).__name__ != type(b).__name__:
             out.append((path, 'type %s vs %s' % (type(a).__name__, type(b).__name__)))
             return out, missing
@@ -137,13 +141,13 @@ def diff(a, b, path='', out=None, missing=None, skip=(), _seen=None):
         _seen.add(key)
         va, vb = vars(a), vars(b)
         for k in va:
-            if (type(a).__name__, k) in skip or callable(va[k]): continue
+            if (type(a).__name__, k) in skip or _isfunc(va[k]): continue
             if k not in vb:
                 missing.append((path + '.' + k, 'right'))
                 continue
             diff(va[k], vb[k], path + '.' + k, out, missing, skip, _seen)
         for k in vb:
-            if k not in va and (type(a).__name__, k) not in skip and not callable(vb[k]):
+            if k not in va and (type(a).__name__, k) not in skip and not _isfunc(vb[k]):
                 missing.append((path + '.' + k, 'left'))
         return out, missing
     if type(a) != type(b) or a != b:
